@@ -8,22 +8,25 @@ checks = {
  "C02": ("verifier", "must-pass-through + dependency slice + length-guard dominance over SSA of the 7 PLONK Verify functions", "3.1, 4/C02"),
  "C08": ("verifier", "length-guard dominance (V-GUARD) and error discipline over SSA of both verifiers x 7 curves", "3.1, 4/C08"),
  "C18": ("verifier", "must-pass-through + argument-provenance slice over SSA of Phase1/Phase2.Verify x 7 curves", "3.1, 4/C18"),
+ "C03": ("conc", "channel-protocol rules (select/ctx pairing, single close on success paths, acyclic wait-for graph, signal on every exit) over SSA/CFG of the 14 provers + error discipline + sibling agreement", "3.6, 4/C03"),
+ "C10": ("effects", "effect analysis over the restricted call graph (no store into shared system/key/blueprint objects from Solve/Prove/Verify), option-slice aliasing, reset-before-run ordering, lock discipline", "3.5, 4/C10"),
+ "C11": ("determinism", "map-iteration order-sensitivity classification + package-level state and nondeterminism-source reachability over the compile-time call graph", "3.7, 4/C11"),
 }
 texts = {
  "C01": "Decides structural necessary conditions of Groth16 verifier soundness on every path of the current source: each reviewed check is on every accepting path with the reviewed argument provenance, every proof field is consumed by a check, every proof-supplied list is length-fixed against the key, no error is dropped. It does not decide the algebra (that the checked equation is the right one).",
  "C02": "Same for the PLONK verifier: subgroup checks of every proof point, Fiat-Shamir bindings, algebraic relation, linearised digest MSM, KZG fold and batch verification are must-pass with reviewed provenance; proof fields covered; lists length-fixed.",
  "C08": "Decides that every index/slice of a proof- or witness-supplied slice in the verifiers is dominated by an error-returning length check, and that wrong list lengths are rejected on all accepting paths. Does not decide panics inside gnark-crypto.",
+ "C03": "Decides the structural reasons why Prove terminates: no prover stage can wait forever once another failed, each stage channel is closed exactly once on the success path, the wait-for graph is acyclic, goroutines always signal, Solve errors propagate. It does not decide that honest proofs verify (algebra) nor domain sizing.",
+ "C10": "Decides that nothing reachable from Solve/Prove/Verify writes memory owned by the shared compiled system, keys, blueprints or caller-owned option slices, that blueprint state is reset before each run and registries are lock-guarded. Reports the lookup-blueprint cache as a known finding. It does not decide equality of results across schedules.",
+ "C11": "Decides the absence of the enumerated nondeterminism sources in compile-time code: order-sensitive effects under map iteration, package-level mutable state, clocks/randomness/goroutine order. It does not decide byte equality across processes in general.",
  "C18": "Decides that every accepting exit of the contribution verifiers passes every update-proof check, size guard and the same-ratio check, each tied to the previous contribution's hash and to the reviewed parameter pairs, and that every parameter vector of the contribution is consumed by a check. Does not decide the cryptography of the update proofs.",
 }
 na = {
- "C03": "not yet implemented in this round (conc engine pending)",
  "C04": "not yet implemented in this round (coeffid/codec engines pending)",
  "C05": "not yet implemented in this round (flow engine pending)",
  "C06": "not yet implemented in this round",
  "C07": "not yet implemented in this round",
  "C09": "not yet implemented in this round",
- "C10": "not yet implemented in this round",
- "C11": "not yet implemented in this round",
  "C12": "not yet implemented in this round",
  "C13": "not yet implemented in this round",
  "C14": "not yet implemented in this round",
